@@ -454,6 +454,9 @@ func RunCheck(cfg *CheckConfig) *CheckOutcome {
 		key := f.Harness + "|" + f.Kind + "|" + f.Msg
 		knownID := ""
 		for _, n := range f.Notes {
+			if strings.HasPrefix(n, "template:") {
+				key += "|" + n
+			}
 			if strings.HasPrefix(n, "known:") {
 				id := strings.TrimPrefix(n, "known:")
 				if _, ok := openKnown[id]; ok {
@@ -462,7 +465,7 @@ func RunCheck(cfg *CheckConfig) *CheckOutcome {
 			}
 		}
 		key += "|" + knownID
-		if perKey[key] >= 2 {
+		if perKey[key] >= 1 || len(pend) >= 60 {
 			continue
 		}
 		perKey[key]++
